@@ -363,6 +363,13 @@ def chk_translate(acc, s, cid):
         if r != ("ok", want[k]) and not (want[k] == "" and r == ("err", "ValueError")):
             _fail(acc, "old GeneticCode.translate: " + ("amino acids" if r[0] == "ok" else f"raised {r[1]}"),
                   dict(case, start=k), r, want[k])
+        # old, the same string in lower case and with U for T: the old code reads those as the same bases
+        if k == 0 and s and r == ("ok", want[k]):
+            for form, x2 in (("lower case", s.lower()), ("mixed case", s[:1].lower() + s[1:]), ("U for T, lower case", s.lower().replace("t", "u"))):
+                acc.case(("old.translate", form, s, cid), nontrivial=nt)
+                r2 = call(old.translate, x2, 0)
+                if r2 != r:
+                    _fail(acc, f"old GeneticCode.translate given a plain string in another spelling: differs from the upper-case DNA string", dict(case, form=form), r2, want[0])
         # new, plus strand, str and index array
         for kind in ("str", "array"):
             if kind == "array":
